@@ -61,6 +61,8 @@ std::string Scenario::describe() const {
 
 namespace {
 
+std::string make_tag(int op) { char b[24]; snprintf(b, sizeof b, "v/%05d/", op); return b; }
+
 struct App : AppSink {
     World& w; Broker& b; const Scenario& sc; Run& run;
     std::unique_ptr<IClient> cl;
@@ -133,9 +135,9 @@ struct App : AppSink {
             case Action::publish: {
                 if (!cl->alive()) break;
                 auto& r = new_op(a.qos == 0 ? OpKind::pub0 : a.qos == 1 ? OpKind::pub1 : OpKind::pub2); op = r.id;
-                r.tag = "v/" + std::to_string(r.id) + "/";
+                r.tag = make_tag(r.id);
                 r.topic = a.raw_topic ? a.topic : r.tag + a.topic;
-                r.payload = a.payload; r.retain = a.retain; r.props = a.props; r.immediate_expected = a.expect_immediate;
+                r.payload = a.payload; r.retain = a.retain; r.props = a.props; r.immediate_expected = a.expect_immediate; r.expect_ec = a.expect_ec; r.expect_ec = a.expect_ec;
                 mq::publish_props pp; l2r::from_ref(a.props, pp);
                 std::string topic = r.topic, payload = r.payload;
                 ++depth; cl->publish(op, a.qos, std::move(topic), std::move(payload), a.retain, pp, a.with_slot); --depth;
@@ -144,10 +146,10 @@ struct App : AppSink {
             case Action::subscribe: {
                 if (!cl->alive()) break;
                 auto& r = new_op(OpKind::sub); op = r.id;
-                r.tag = "v/" + std::to_string(r.id) + "/";
+                r.tag = make_tag(r.id);
                 std::vector<mq::subscribe_topic> topics;
                 for (auto& s : a.subs) { std::string f = a.raw_topic ? s.first : r.tag + s.first; r.subs.emplace_back(f, s.second); topics.push_back({f, l2r::sub_opts_from(s.second)}); }
-                r.props = a.props; r.immediate_expected = a.expect_immediate;
+                r.props = a.props; r.immediate_expected = a.expect_immediate; r.expect_ec = a.expect_ec;
                 mq::subscribe_props sp; l2r::from_ref(a.props, sp);
                 ++depth; cl->subscribe(op, topics, sp, a.with_slot); --depth;
                 break;
@@ -155,10 +157,10 @@ struct App : AppSink {
             case Action::unsubscribe: {
                 if (!cl->alive()) break;
                 auto& r = new_op(OpKind::unsub); op = r.id;
-                r.tag = "v/" + std::to_string(r.id) + "/";
+                r.tag = make_tag(r.id);
                 std::vector<std::string> topics;
                 for (auto& s : a.subs) { std::string f = a.raw_topic ? s.first : r.tag + s.first; r.unsubs.push_back(f); topics.push_back(f); }
-                r.props = a.props; r.immediate_expected = a.expect_immediate;
+                r.props = a.props; r.immediate_expected = a.expect_immediate; r.expect_ec = a.expect_ec;
                 mq::unsubscribe_props up; l2r::from_ref(a.props, up);
                 ++depth; cl->unsubscribe(op, topics, up, a.with_slot); --depth;
                 break;
@@ -173,7 +175,7 @@ struct App : AppSink {
             case Action::disconnect: {
                 if (!cl->alive()) break;
                 auto& r = new_op(OpKind::disconnect); op = r.id; disconnect_op = op;
-                r.disc_rc = a.rc; r.props = a.props;
+                r.disc_rc = a.rc; r.props = a.props; r.immediate_expected = a.expect_immediate; r.expect_ec = a.expect_ec;
                 w.log(Ev::terminal, op, 1, 0, "async_disconnect");
                 terminal = true; w.terminal_called = true; ++incarnation;
                 mq::disconnect_props dp; l2r::from_ref(a.props, dp);
